@@ -20,6 +20,13 @@ class Boom(Exception):
     pass
 
 
+class BoomBase(BaseException):
+    pass
+
+
+EXC_KINDS = [Boom, StopIteration, KeyError, BoomBase, GeneratorExit, RuntimeError]
+
+
 def cell_of(n):
     return [int(n.note), int(n.vel), int(n.module), int(n.ctl), int(n.val)]
 
@@ -45,6 +52,8 @@ def run_history(api, rnd, tid, lines, tracks, attached, edits, prefill):
         ev.append({"op": "begin"})
         calls = ed["notes"]
         fail_at = ed["fail_at"]
+        exc = ed.get("exc", Boom)
+        reuse = ed.get("reuse", ())          # positions (indices into calls) where the callable hands back an EXISTING note object
 
         def mk(c):
             return api.Note(note=c[0], vel=c[1], module=c[2], ctl=c[3], val=c[4])
@@ -56,7 +65,11 @@ def run_history(api, rnd, tid, lines, tracks, attached, edits, prefill):
                     state["i"] += 1
                     k, c = calls[i]
                     if fail_at == i:
-                        raise Boom()
+                        raise exc()
+                    if i in reuse:          # leave the cell alone by returning the note that is already there
+                        old = p.data[line][track]
+                        ev.append({"op": "cell", "k": k, "note": cell_of(old), "seen": contents(p)})
+                        return old
                     ev.append({"op": "cell", "k": k, "note": c, "seen": contents(p)})
                     return mk(c)
                 r = pat.set_via_fn(fn)
@@ -64,17 +77,24 @@ def run_history(api, rnd, tid, lines, tracks, attached, edits, prefill):
                 def gen(p, new):
                     for i, (k, c) in enumerate(calls):
                         if fail_at == i:
-                            raise Boom()
+                            raise exc()
+                        if i in reuse:      # move an existing note object to cell k
+                            src = p.data[0][0]
+                            ev.append({"op": "cell", "k": k, "note": cell_of(src), "seen": contents(p)})
+                            yield (k - 1) // tracks, (k - 1) % tracks, src
+                            continue
                         ev.append({"op": "cell", "k": k, "note": c, "seen": contents(p)})
                         yield (k - 1) // tracks, (k - 1) % tracks, mk(c)
                     if fail_at == len(calls):
-                        raise Boom()
+                        raise exc()
                 r = pat.set_via_gen(gen)
-        except Boom:
-            ev.append({"op": "fail", "outcome": "callable-exception", "post": contents(pat)})
+        except BaseException as e:
+            # the callable's failure propagates (Python may re-wrap it, e.g. StopIteration inside a generator -> RuntimeError)
+            ev.append({"op": "fail", "outcome": "callable-exception" if fail_at is not None else "unexpected:" + type(e).__name__,
+                       "post": contents(pat)})
             continue
-        except Exception as e:
-            ev.append({"op": "fail", "outcome": "other:" + type(e).__name__, "post": contents(pat)})
+        if fail_at is not None:       # the callable raised but the edit "completed": the failure was swallowed
+            ev.append({"op": "fail", "outcome": "swallowed:" + exc.__name__, "post": contents(pat)})
             continue
         owned = [n.pattern is pat for line in pat.data for n in line]
         acc = []
@@ -125,7 +145,10 @@ def run(ctx):
             else:
                 rnd.shuffle(ks)
             notes = [(k, rcell()) for k in ks]
-        return {"setter": setter, "notes": notes, "fail_at": fail_at}
+        d = {"setter": setter, "notes": notes, "fail_at": fail_at, "exc": rnd.choice(EXC_KINDS)}
+        if rnd.random() < 0.35:
+            d["reuse"] = set(rnd.sample(range(len(notes)), rnd.randrange(0, len(notes) + 1))) if notes else set()
+        return d
     traces = []
     shapes = [(1, 1), (1, 2), (2, 1), (2, 2), (3, 2), (2, 3), (3, 3)]
     # failure at every position, each shape, each setter, attached and not; followed by a partial generator edit
